@@ -92,6 +92,8 @@ func runC18(p *Prog, r *Result) {
 	info := pkg.TypesInfo
 	r.Rule("R18", "metacharacter tables of QuoteMeta, HasMeta and regexpNext agree (set extraction from switch case lists)", 5)
 
+	r.Rule("R18c", "no byte of the pattern is promoted to a rune without a test that it is below utf8.RuneSelf: an escaped multi-byte character matches itself (0 instances on the pinned tree; armed by C17's control; the check is R17h)", 0)
+	checkByteWidenedToRune(p, r, "R18c")
 	r.Rule("R18b", "Regexp's verbatim short-cut is taken only for patterns without any regexp metacharacter", 1)
 	checkRegexpShortcut(p, r, "R18b")
 
